@@ -627,14 +627,16 @@ def gen_h5_case(rng: common.Rng) -> dict[str, Any]:
     loc = rng.pick(sorted(nodes) + ["f@zz"])
     tol = rng.pick([0, Fraction(1, 8), Fraction(1, 2)])
     write = [rng.randint(10, 20), rng.randint(-6, 6)] if rng.chance(0.7) else None
-    return {"kind": "h5", "nodes": nodes, "cache": loc, "tol": str(tol), "write": write}
+    mid = [rng.randint(5, 9), rng.randint(-6, 6)]  # inputs increase in writing order (the views are sorted) if rng.chance(0.6) else None
+    return {"kind": "h5", "nodes": nodes, "cache": loc, "tol": str(tol), "write": write, "mid": mid}
 
 
 def h5_line(case) -> str:
     disk = "+".join(f"{loc}={';'.join(f'{i}:{o}' for i, o in es) or '[]'}" for loc, es in case["nodes"].items()) or "[]"
     p, n = case["cache"].split("@")
     w = "_" if case["write"] is None else f"{case['write'][0]}:{case['write'][1]}"
-    return f"h5 disk={disk} cache={rat(Fraction(case['tol']))}|{p}|{n}|nm write={w}"
+    mid = "_" if case.get("mid") is None else f"{case['mid'][0]}:{case['mid'][1]}"
+    return f"h5 disk={disk} cache={rat(Fraction(case['tol']))}|{p}|{n}|nm mid={mid} write={w}"
 
 
 def h5_impl(case, tmp: Path) -> str:
@@ -652,7 +654,10 @@ def h5_impl(case, tmp: Path) -> str:
             c.cache_outputs({"x": np.array([float(i)])}, {"y": np.array([float(o)])})
     p, n = case["cache"].split("@")
     c0 = HDF5Cache(hdf_file_path=str(d / f"{p}.h5"), hdf_node_path=n, tolerance=float(Fraction(case["tol"])), name="nm")
-    c1 = pickle.loads(pickle.dumps(c0))
+    blob = pickle.dumps(c0)
+    if case.get("mid") is not None:  # the original keeps working before the copy is restored
+        c0.cache_outputs({"x": np.array([float(case["mid"][0])])}, {"y": np.array([float(case["mid"][1])])})
+    c1 = pickle.loads(blob)
 
     def entries(c):
         es = [(common.F(e.inputs["x"][0]), common.F(e.outputs["y"][0])) for e in (list(c.get_all_entries()) if len(c) else [])]
@@ -694,6 +699,8 @@ def check_instances(res: Result, rng: common.Rng, n: int, tmp: Path) -> None:
         else:
             p, n_ = case["cache"].split("@")
             es = sorted((Fraction(i), Fraction(o)) for i, o in case["nodes"].get(case["cache"], []))
+            if case.get("mid") is not None:
+                es = sorted([*es, (Fraction(case["mid"][0]), Fraction(case["mid"][1]))])
             want_sees = ";".join(f"{rat(i)}:{rat(o)}" for i, o in es) or "[]"
             if case["write"] is not None:
                 es = sorted([*es, (Fraction(case["write"][0]), Fraction(case["write"][1]))])
@@ -917,7 +924,10 @@ def process_outcome(res: Result, case: dict[str, Any], out, tmp: Path, shrink: b
             res.count(f"{dim}={case[dim]}")
     res.nontrivial((case["kind"], subject_of(case, out), case.get("grammar"), case.get("cache"), case.get("moment"), case.get("serializer"), case.get("seed")))
     for fkind, what in out.failures:
-        small = shrink_case(case, fkind, tmp) if shrink else case
+        # shrink only the first failure of a class (a broken base class fails for every subclass and moment)
+        seen = {v.key for v in res.violations}
+        do_shrink = shrink and violation_key(case, fkind, out) not in seen and len(seen) < 40
+        small = shrink_case(case, fkind, tmp) if do_shrink else case
         o2 = out
         if small != case:
             try:
